@@ -2002,9 +2002,9 @@ class Surface(SplineGeometry):
             uv = self._tsl_component.vertices[idx].uv
             if self._kv_normalize and not utilities.check_params(uv):
                 continue
-            if not self._kv_normalize:
-                # The tessellator works on the unit square: map to the parametric domain of the knot vectors
-                uv = [d[0] + (p * (d[1] - d[0])) for p, d in zip(uv, self.domain)]
+            # The tessellator works on the unit square: map to the parametric domain of the knot vectors
+            # (the identity for clamped normalized knot vectors; the domain of unclamped ones is smaller)
+            uv = [d[0] + (p * (d[1] - d[0])) for p, d in zip(uv, self.domain)]
             self._tsl_component.vertices[idx].data = self.evaluate_single(uv)
 
     def reset(self, **kwargs):
